@@ -155,6 +155,38 @@ def _snapshot_order(ctx, R, fi, g, gate):
               fi.loc(late[0].ast) if late else fi.loc(gate.ast))
 
 
+
+def dc_gates(g):
+    """effective-candidate tests guarding a delegated credential verification:
+    `if not X.delegated_credential.verify(..)` or `ok = X...verify(..)` ... `if not ok`.
+    returns [(test node, verify Call)]"""
+    out = []
+    for t in g.nodes:
+        if t.kind != "test":
+            continue
+        direct = [c for c in calls_in(t.expr) if call_name(c) == "verify" and "delegated_credential" in norm(c.func)]
+        if direct and isinstance(t.expr, ast.UnaryOp) and isinstance(t.expr.op, ast.Not):
+            out.append((t, direct[0]))
+            continue
+        if isinstance(t.expr, ast.UnaryOp) and isinstance(t.expr.op, ast.Not) and isinstance(t.expr.operand, ast.Name):
+            calls = []
+            okdefs = True
+            for d in reaching_defs(g, t, t.expr.operand.id):
+                if d.kind == "stmt" and isinstance(d.ast, ast.Assign):
+                    v = d.ast.value
+                    if isinstance(v, ast.Call) and call_name(v) == "verify" and "delegated_credential" in norm(v.func):
+                        calls.append(v)
+                    elif isinstance(v, ast.Constant) and v.value is False:
+                        pass
+                    else:
+                        okdefs = False
+                else:
+                    okdefs = False
+            if calls and okdefs:
+                out.append((t, calls[0]))
+    return out
+
+
 SITES = [
     # function, chain variable, how the chain is bound (text fragment of RHS), sinks
     (TLSCONN + "_serverCertKeyExchange", "clientCertChain", "clientCertificate.cert_chain", "yield"),
@@ -297,9 +329,8 @@ def rule_scheme(ctx):
         # on the delegated-credential path the scheme checks live in DelegatedCredential.verify
         # (validated below); the effective `if not X.delegated_credential.verify(.., cv)` is the gate
         cvname = sa.split(".")[0]
-        for t in g.nodes:
-            if t.kind == "test" and "delegated_credential.verify(" in norm(t.expr) and \
-                    cvname in {x.id for x in ast.walk(t.expr) if isinstance(x, ast.Name)} and \
+        for t, vcall in dc_gates(g):
+            if cvname in {x.id for x in ast.walk(vcall) if isinstance(x, ast.Name)} and \
                     "T" in dead_edge_labels(g, t, gates):
                 eff.append(t)
         cvs = getmsg_nodes(g, hs_type="certificate_verify")
@@ -336,19 +367,17 @@ def rule_dc(ctx):
     R = "C05.DC"
     fi = ctx.index.func(TLSCONN + "_clientTLS13Handshake")
     g = ctx.an.cfg(fi)
-    sites = []
-    for n in g.nodes:
-        if n.kind == "test" and "delegated_credential.verify(" in norm(n.expr):
-            sites.append(n)
+    sites = dc_gates(g)
     ctx.require(len(sites) >= 1, "C05.DC: delegated credential verification site not found")
     sinks = [x for x in g.nodes if is_value_yield(x)]
-    for n in sites:
-        call = [c for c in calls_in(n.expr) if call_name(c) == "verify"][0]
+    for n, call in sites:
         ok = "T" in dead_edge_labels(g, n, sinks) and len(call.args) >= 3
         a0 = call.args[0] if call.args else None
         okdef = False
         if isinstance(a0, ast.Name):
-            defs = reaching_defs(g, n, a0.id)
+            at = [x for x in g.nodes if x.kind == "stmt" and x.ast is not None
+                  and any(c is call for c in calls_in(x.ast))] or [n]
+            defs = reaching_defs(g, at[0], a0.id)
             okdef = bool(defs) and all(
                 d.kind == "stmt" and isinstance(d.ast, ast.Assign) and
                 norm(d.ast.value) == "certificate.certificate_list[0]" for d in defs)
